@@ -36,7 +36,7 @@ def model_checks(tier):
     return [dict(module='mc/MC_DecodeHistory', cfg='mc/MC_DecodeHistory_repaired', must_cover=['Decode'], workers=8)]
 
 
-BEHS = ['ok', 'ok_lead0', 'ok_letters', 'nondict', 'none', 'raise', 'raise_empty', 'importerror', 'importfails',
+BEHS = ['ok', 'ok_lead0', 'ok_letters', 'ok_bmccomp', 'nondict', 'none', 'raise', 'raise_empty', 'importerror', 'importfails',
         'importfails', 'absent']
 
 
@@ -89,6 +89,8 @@ def _ud(rng, it):
         if beh == 'importfails':
             comp = list(rng.choice(udrun.BROKEN_COMPS))
         real_beh = 'ok' if beh.startswith('ok') else beh
+        if beh == 'ok_bmccomp':
+            creator = 'Y'       # the component id under which the BMC's built-in formats live, from another creator
     elif beh == 'absent':
         comp, fixture = [0x7A, 0x7A], False
     elif beh.startswith('prog'):
